@@ -44,7 +44,7 @@ class Relationship(_RelationshipObject):
         # Allow (source_ref, relationship_type, target_ref) as positional args.
         if source_ref and not kwargs.get('source_ref'):
             kwargs['source_ref'] = source_ref
-        if relationship_type and not kwargs.get('relationship_type'):
+        if relationship_type is not None and not kwargs.get('relationship_type'):
             kwargs['relationship_type'] = relationship_type
         if target_ref and not kwargs.get('target_ref'):
             kwargs['target_ref'] = target_ref
